@@ -57,6 +57,9 @@ def stages(tier, rng, only=None):
                         _nt))
     out.append(ac.stage("reuse_other_dataset", PID, lambda: ac.reuse_other_cases(hist, algorun.ALL_CONFIGS, sch, rng),
                         _nt))
+    out.append(ac.stage("very_many_rankings", PID, lambda: ac.cases(
+        [ac.many_rankings_dataset(rng) for _ in range(10 if tier == "quick" else 80)],
+        [c for c in algorun.ALL_CONFIGS if not c.startswith("Exact") and c != "ParCons"], sch, flags=(1,)), _nt))
     out.append(ac.stage("cycles", PID, lambda: _cases(
         [ac.cyclic_dataset(rng, 3, 5, incomplete=k % 3 != 0) for k in range(150 if tier == "quick" else 1500)]
         + [ac.two_cycles(rng) for _ in range(6 if tier == "quick" else 40)]
